@@ -355,19 +355,33 @@ Qed.
 (* flat_group_base                                                     *)
 (* ------------------------------------------------------------------ *)
 
-(* header contents are values of the header types; the address of the first
-   entry is a representable address *)
+(* header contents are values of the header types; the dimension composite
+   (size [g_hdr g] = sbepp::size_bytes(dimension), ANY such size) has room for
+   blockLength and numInGroup and its size is below 2^63, so that
+   header size + numInGroup * blockLength (< 2^63 in the theorems) does not
+   wrap std::size_t; the address of the first entry is a representable address *)
 Definition wf_grp (S B : ity) (g : grp) : Prop :=
   is_uns S = true /\ is_uns B = true /\
   in_range S (g_ng g) = true /\ in_range B (g_bl g) = true /\
-  tmin I64 <= g_ptr g + hdr_size S B <= tmax I64.
+  wsize B + wsize S <= g_hdr g < 2 ^ 63 /\
+  tmin I64 <= g_ptr g + g_hdr g <= tmax I64.
 
 (* precondition of every accessor when size checks are enabled: the view
    [g_ptr, g_end) covers the header and all the entries the header announces *)
 Definition fits (chk : bool) (S B : ity) (g : grp) : Prop :=
   chk = true ->
   0 <= g_end g - g_ptr g < 2 ^ 64 /\
-  g_ptr g + hdr_size S B + g_ng g * g_bl g <= g_end g.
+  g_ptr g + g_hdr g + g_ng g * g_bl g <= g_end g.
+
+Lemma wsize_pos t : 1 <= wsize t <= 8.
+Proof. destruct t; cbn; lia. Qed.
+
+(* the header of a well-formed group is at least 2 bytes *)
+Lemma wf_hdr_bounds S B g : wf_grp S B g -> 2 <= g_hdr g < 9223372036854775808.
+Proof.
+  intros (_ & _ & _ & _ & Hh & _). pose proof (wsize_pos S). pose proof (wsize_pos B).
+  change (2 ^ 63) with 9223372036854775808 in Hh. lia.
+Qed.
 
 Lemma hdr_size_bounds S B : is_uns S = true -> is_uns B = true -> 2 <= hdr_size S B <= 16.
 Proof.
@@ -376,9 +390,9 @@ Qed.
 
 Lemma hdr_ok_fits chk S B g : wf_grp S B g -> fits chk S B g -> hdr_ok chk S B g = true.
 Proof.
-  intros (HS & HB & Hng & Hbl & Ha) Hf. unfold hdr_ok, size_check.
+  intros Hwf Hf. pose proof (wf_hdr_bounds S B g Hwf) as Hh.
+  destruct Hwf as (HS & HB & Hng & Hbl & Hhd & Ha). unfold hdr_ok, size_check.
   destruct chk; [|reflexivity]. cbn [negb orb]. destruct (Hf eq_refl) as [Hr Hle].
-  pose proof (hdr_size_bounds S B HS HB) as Hh.
   pose proof (uns_range_64 S _ HS Hng). pose proof (uns_range_64 B _ HB Hbl).
   assert (0 <= g_ng g * g_bl g) by (apply Z.mul_nonneg_nonneg; lia).
   apply andb_true_iff; split; [apply Z.leb_le; lia|].
@@ -405,12 +419,14 @@ Proof.
     rewrite wrap_id' by (cbn; nia). reflexivity.
 Qed.
 
-Lemma size_bytes_fixed_ok S B ng bl :
+(* for every header size H (as long as H + numInGroup * blockLength is a
+   std::size_t value) *)
+Lemma size_bytes_fixed_ok S B H ng bl :
   is_uns S = true -> is_uns B = true -> in_range S ng = true -> in_range B bl = true ->
-  hdr_size S B + ng * bl < 2 ^ 64 ->
-  size_bytes_fixed S B ng bl = Some (hdr_size S B + ng * bl).
+  0 <= H -> H + ng * bl < 2 ^ 64 ->
+  size_bytes_fixed S B H ng bl = Some (H + ng * bl).
 Proof.
-  intros HS HB Hng Hbl Hp. pose proof (hdr_size_bounds S B HS HB) as Hh.
+  intros HS HB Hng Hbl Hh Hp.
   pose proof (uns_range_64 S ng HS Hng) as Hng'. pose proof (uns_range_64 B bl HB Hbl) as Hbl'.
   assert (0 <= ng * bl) by (apply Z.mul_nonneg_nonneg; lia).
   change (2 ^ 64) with 18446744073709551616 in Hp.
@@ -423,25 +439,25 @@ Proof.
 Qed.
 
 Lemma g_begin_ok chk S B g : wf_grp S B g -> fits chk S B g ->
-  g_begin chk S B g = GOk (it_at (g_ptr g + hdr_size S B) (g_bl g) (g_end g) 0).
+  g_begin chk S B g = GOk (it_at (g_ptr g + g_hdr g) (g_bl g) (g_end g) 0).
 Proof.
   intros Hwf Hf. unfold g_begin, gassert. rewrite (hdr_ok_fits chk S B g Hwf Hf), orb_true_r.
-  destruct Hwf as (HS & HB & Hng & Hbl & Ha).
+  destruct Hwf as (HS & HB & Hng & Hbl & Hhd & Ha).
   unfold g_begin_ptr, it_at. rewrite padd_id by exact Ha. do 2 f_equal. ring.
 Qed.
 
 (* end() is positioned after the last entry and carries index numInGroup *)
 Lemma g_end_it_ok chk S B g : wf_grp S B g -> fits chk S B g ->
   g_ng g * g_bl g < 2 ^ 63 ->
-  tmin I64 <= g_ptr g + hdr_size S B + g_ng g * g_bl g <= tmax I64 ->
-  g_end_it chk S B g = GOk (it_at (g_ptr g + hdr_size S B) (g_bl g) (g_end g) (g_ng g)).
+  tmin I64 <= g_ptr g + g_hdr g + g_ng g * g_bl g <= tmax I64 ->
+  g_end_it chk S B g = GOk (it_at (g_ptr g + g_hdr g) (g_bl g) (g_end g) (g_ng g)).
 Proof.
   intros Hwf Hf Hp Ha. pose proof (hdr_ok_fits chk S B g Hwf Hf) as Hh.
-  destruct Hwf as (HS & HB & Hng & Hbl & Hb).
-  pose proof (hdr_size_bounds S B HS HB) as Hhs.
+  pose proof (wf_hdr_bounds S B g Hwf) as Hhs.
+  destruct Hwf as (HS & HB & Hng & Hbl & Hhd & Hb).
   change (2 ^ 63) with 9223372036854775808 in Hp.
   unfold g_end_it, g_end_it_g, g_size_bytes_g, gassert. rewrite Hh, orb_true_r.
-  rewrite size_bytes_fixed_ok by (assumption || (change (2 ^ 64) with 18446744073709551616; lia)).
+  rewrite size_bytes_fixed_ok by (assumption || lia || (change (2 ^ 64) with 18446744073709551616; lia)).
   cbn [of_opt gbind]. unfold it_at.
   rewrite padd_id by (rewrite Z.add_assoc; exact Ha).
   do 2 f_equal. ring.
@@ -451,19 +467,19 @@ Qed.
    and stepping size() times with ++ reaches end() as well *)
 Theorem begin_plus_size chk S B g : wf_grp S B g -> fits chk S B g ->
   g_ng g * g_bl g < 2 ^ 63 ->
-  tmin I64 <= g_ptr g + hdr_size S B + g_ng g * g_bl g <= tmax I64 ->
+  tmin I64 <= g_ptr g + g_hdr g + g_ng g * g_bl g <= tmax I64 ->
   in_range (dty S) (g_ng g) = true ->
   exists b e,
     g_begin chk S B g = GOk b /\ g_end_it chk S B g = GOk e /\
     it_plus S B b (g_ng g) = GOk e /\
-    i_ptr e = g_ptr g + hdr_size S B + g_ng g * g_bl g /\ i_idx e = g_ng g /\
+    i_ptr e = g_ptr g + g_hdr g + g_ng g * g_bl g /\ i_idx e = g_ng g /\
     it_diff S e b = GOk (g_ng g).
 Proof.
   intros Hwf Hf Hp Ha Hd.
-  exists (it_at (g_ptr g + hdr_size S B) (g_bl g) (g_end g) 0),
-         (it_at (g_ptr g + hdr_size S B) (g_bl g) (g_end g) (g_ng g)).
+  exists (it_at (g_ptr g + g_hdr g) (g_bl g) (g_end g) 0),
+         (it_at (g_ptr g + g_hdr g) (g_bl g) (g_end g) (g_ng g)).
   rewrite g_begin_ok, g_end_it_ok by assumption.
-  destruct Hwf as (HS & HB & Hng & Hbl & Hb).
+  destruct Hwf as (HS & HB & Hng & Hbl & Hhd & Hb).
   pose proof (uns_range_64 S _ HS Hng).
   assert (H0 : in_range S 0 = true)
     by (apply in_range_of; destruct S; try discriminate HS; cbn; lia).
@@ -513,11 +529,11 @@ Qed.
    which start at data start + i * wire blockLength *)
 Lemma g_at_ok chk S B g pos : wf_grp S B g -> fits chk S B g ->
   0 <= pos < g_ng g -> pos * g_bl g < 2 ^ 63 ->
-  tmin I64 <= g_ptr g + hdr_size S B + pos * g_bl g <= tmax I64 ->
-  g_at chk S B g pos = GOk (g_ptr g + hdr_size S B + pos * g_bl g).
+  tmin I64 <= g_ptr g + g_hdr g + pos * g_bl g <= tmax I64 ->
+  g_at chk S B g pos = GOk (g_ptr g + g_hdr g + pos * g_bl g).
 Proof.
   intros Hwf Hf Hpos Hp Ha. pose proof (hdr_ok_fits chk S B g Hwf Hf) as Hh.
-  destruct Hwf as (HS & HB & Hng & Hbl & Hb).
+  destruct Hwf as (HS & HB & Hng & Hbl & Hhd & Hb).
   pose proof (uns_range_64 S _ HS Hng) as Hng'.
   assert (Hps : in_range S pos = true).
   { apply in_range_iff in Hng. apply in_range_of.
@@ -541,7 +557,7 @@ Proof.
 Qed.
 
 Lemma g_front_ok chk S B g : wf_grp S B g -> fits chk S B g -> 0 < g_ng g ->
-  g_front chk S B g = GOk (g_ptr g + hdr_size S B).
+  g_front chk S B g = GOk (g_ptr g + g_hdr g).
 Proof.
   intros Hwf Hf Hne. pose proof (hdr_ok_fits chk S B g Hwf Hf) as Hh.
   unfold g_front, gassert. rewrite Hh. destruct (Z.eqb_spec (g_ng g) 0); [lia|].
@@ -551,14 +567,14 @@ Qed.
 
 Lemma g_back_ok chk S B g : wf_grp S B g -> fits chk S B g -> 0 < g_ng g ->
   g_ng g * g_bl g < 2 ^ 63 ->
-  tmin I64 <= g_ptr g + hdr_size S B + g_ng g * g_bl g <= tmax I64 ->
-  g_back chk S B g = GOk (g_ptr g + hdr_size S B + (g_ng g - 1) * g_bl g).
+  tmin I64 <= g_ptr g + g_hdr g + g_ng g * g_bl g <= tmax I64 ->
+  g_back chk S B g = GOk (g_ptr g + g_hdr g + (g_ng g - 1) * g_bl g).
 Proof.
   intros Hwf Hf Hne Hp Ha. pose proof (hdr_ok_fits chk S B g Hwf Hf) as Hh.
   unfold g_back, g_back_g, gassert. rewrite Hh. destruct (Z.eqb_spec (g_ng g) 0); [lia|].
   cbn [negb andb]. rewrite orb_true_r.
   fold (g_end_it chk S B g). rewrite g_end_it_ok by assumption. cbn [gbind].
-  destruct Hwf as (HS & HB & Hng & Hbl & Hb).
+  destruct Hwf as (HS & HB & Hng & Hbl & Hhd & Hb).
   pose proof (uns_range_64 S _ HS Hng) as Hng'. pose proof (uns_range_64 B _ HB Hbl) as Hbl'.
   assert (0 <= (g_ng g - 1) * g_bl g <= g_ng g * g_bl g) by nia.
   rewrite it_dec_at; try assumption.
@@ -569,8 +585,8 @@ Qed.
 
 Theorem entry_i_address chk S B g : wf_grp S B g -> fits chk S B g ->
   g_ng g * g_bl g < 2 ^ 63 ->
-  tmin I64 <= g_ptr g + hdr_size S B + g_ng g * g_bl g <= tmax I64 ->
-  let data := g_ptr g + hdr_size S B in
+  tmin I64 <= g_ptr g + g_hdr g + g_ng g * g_bl g <= tmax I64 ->
+  let data := g_ptr g + g_hdr g in
   (forall pos, 0 <= pos < g_ng g -> g_at chk S B g pos = GOk (data + pos * g_bl g)) /\
   (0 < g_ng g -> g_front chk S B g = GOk data /\
                  g_back chk S B g = GOk (data + (g_ng g - 1) * g_bl g)) /\
@@ -579,7 +595,7 @@ Theorem entry_i_address chk S B g : wf_grp S B g -> fits chk S B g ->
        = GOk (it_at data (g_bl g) (g_end g) (Z.of_nat k))).
 Proof.
   intros Hwf Hf Hp Ha data.
-  pose proof Hwf as (HS & HB & Hng & Hbl & Hb).
+  pose proof Hwf as (HS & HB & Hng & Hbl & Hhd & Hb).
   pose proof (uns_range_64 S _ HS Hng) as Hng'. pose proof (uns_range_64 B _ HB Hbl) as Hbl'.
   change (2 ^ 63) with 9223372036854775808 in Hp.
   split; [|split].
@@ -593,7 +609,7 @@ Proof.
     + apply in_range_iff in Hng. apply in_range_of. destruct S; try discriminate HS; cbn in *; lia.
     + intros Hc. destruct (Hf Hc) as [Hr Hle].
       change (2 ^ 64) with 18446744073709551616 in *.
-      pose proof (hdr_size_bounds S B HS HB). split; lia.
+      pose proof (wf_hdr_bounds S B g Hwf). split; lia.
 Qed.
 
 (* ------------------------------------------------------------------ *)
@@ -663,66 +679,172 @@ Proof.
   destruct l as [|x l]; [cbn; rewrite skipn_nil; reflexivity|]. cbn. apply IH.
 Qed.
 
-Lemma wsize_pos t : 1 <= wsize t <= 8.
-Proof. destruct t; cbn; lia. Qed.
+(* ------------------------------------------------------------------ *)
+(* dimension composites of any layout                                  *)
+(* ------------------------------------------------------------------ *)
+
+(* a dimension layout: blockLength and numInGroup lie inside the composite and
+   do not overlap -- in any order, with any padding and any further members
+   (numGroups, numVarDataFields, ...) *)
+Definition wf_hlay (S B : ity) (L : hlay) : Prop :=
+  0 <= h_bl L /\ 0 <= h_ng L /\
+  h_bl L + wsize B <= h_size L /\ h_ng L + wsize S <= h_size L /\
+  (h_bl L + wsize B <= h_ng L \/ h_ng L + wsize S <= h_bl L).
+
+(* such a composite is at least sizeof(blockLength) + sizeof(numInGroup) long *)
+Lemma wf_hlay_size S B L : wf_hlay S B L -> wsize B + wsize S <= h_size L.
+Proof.
+  intros (H1 & H2 & H3 & H4 & H5). pose proof (wsize_pos S). pose proof (wsize_pos B).
+  destruct H5; lia.
+Qed.
+
+(* the two-member composite is the special case *)
+Lemma std_hlay_wf S B : wf_hlay S B (std_hlay S B) /\ h_size (std_hlay S B) = hdr_size S B.
+Proof.
+  unfold wf_hlay, std_hlay, hdr_size. cbn [h_size h_bl h_ng].
+  pose proof (wsize_pos S). pose proof (wsize_pos B). repeat split; lia.
+Qed.
+
+Lemma rd_some_bounds t l off v : rd t l off = Some v -> 0 <= off /\ off + wsize t <= blen l.
+Proof.
+  unfold rd, slice, wsize.
+  destruct (Z.ltb_spec off 0); cbn [orb]; [discriminate|].
+  destruct (Z.ltb_spec (blen l) (off + Z.of_nat (wbytes t))); [discriminate|]. intros _. lia.
+Qed.
+
+(* bytes [off, off+n) of [l], seen through pre ++ l ++ post *)
+Lemma slice_embed pre l post off n :
+  0 <= off -> off + Z.of_nat n <= blen l ->
+  slice (pre ++ l ++ post) (blen pre + off) n = slice l off n.
+Proof.
+  intros Ho Hn. unfold slice. rewrite !blen_app.
+  pose proof (blen_nonneg pre). pose proof (blen_nonneg post).
+  destruct (Z.ltb_spec (blen pre + off) 0); [lia|].
+  destruct (Z.ltb_spec off 0); [lia|].
+  destruct (Z.ltb_spec (blen pre + (blen l + blen post)) (blen pre + off + Z.of_nat n)); [lia|].
+  destruct (Z.ltb_spec (blen l) (off + Z.of_nat n)); [lia|]. cbn [orb]. f_equal.
+  replace (Z.to_nat (blen pre + off)) with (length pre + Z.to_nat off)%nat by (unfold blen; lia).
+  rewrite skipn_add, skipn_app, skipn_all, Nat.sub_diag. cbn [app skipn].
+  rewrite skipn_app, firstn_app.
+  assert (Hl : (n - length (skipn (Z.to_nat off) l) = 0)%nat)
+    by (rewrite skipn_length; unfold blen in Hn; lia).
+  rewrite Hl. cbn [firstn]. apply app_nil_r.
+Qed.
+
+Lemma rd_embed t pre l post off v :
+  rd t l off = Some v -> rd t (pre ++ l ++ post) (blen pre + off) = Some v.
+Proof.
+  intros Hr. destruct (rd_some_bounds t l off v Hr) as [Ho Hn]. unfold rd in *.
+  rewrite slice_embed; [exact Hr|exact Ho|unfold wsize in Hn; exact Hn].
+Qed.
+
+(* replacing [old] by [new] of the same length does not change what is read
+   before or after it *)
+Lemma slice_frame pre old new post off n :
+  length old = length new -> 0 <= off ->
+  (off + Z.of_nat n <= blen pre \/ blen pre + blen old <= off) ->
+  slice (pre ++ new ++ post) off n = slice (pre ++ old ++ post) off n.
+Proof.
+  intros Hlen Ho [Hc|Hc].
+  - rewrite !slice_prefix by assumption. reflexivity.
+  - assert (Hb : blen new = blen old) by (unfold blen; lia).
+    unfold slice. rewrite !blen_app, Hb.
+    destruct ((off <? 0) || (blen pre + (blen old + blen post) <? off + Z.of_nat n)); [reflexivity|].
+    do 2 f_equal. unfold blen in Hc.
+    rewrite !skipn_app.
+    rewrite (skipn_all2 pre), (skipn_all2 new), (skipn_all2 old) by lia.
+    rewrite Hlen. reflexivity.
+Qed.
+
+Lemma rd_frame t pre old new post off :
+  length old = length new -> 0 <= off ->
+  (off + wsize t <= blen pre \/ blen pre + blen old <= off) ->
+  rd t (pre ++ new ++ post) off = rd t (pre ++ old ++ post) off.
+Proof.
+  intros Hlen Ho Hc. unfold rd. rewrite (slice_frame pre old new post); [reflexivity|assumption..].
+Qed.
 
 (* resize(count) / clear(): exactly the numInGroup bytes of the header are
-   rewritten, size() afterwards is count and blockLength is unchanged *)
-Theorem resize_frame chk S B buf p e count :
+   rewritten -- wherever numInGroup lies in the dimension composite --, size()
+   afterwards is count and blockLength is unchanged.  (No separate bound on
+   the header size is needed: the header lies in a buffer shorter than 2^63.) *)
+Theorem resize_frame chk S B L buf p e count :
+  is_uns S = true -> is_uns B = true -> wf_hlay S B L ->
+  0 <= p -> p + h_size L <= blen buf -> blen buf < 2 ^ 63 ->
+  (chk = true -> 0 <= e - p < 2 ^ 64 /\ h_size L <= e - p) ->
+  exists pre old post,
+    buf = pre ++ old ++ post /\ blen pre = p + h_ng L /\ length old = wbytes S /\
+    let buf' := pre ++ enc_le (wbytes S) (ccast S count) ++ post in
+    g_resize chk S B L buf p e count = GOk buf' /\
+    g_clear chk S B L buf p e = GOk (pre ++ enc_le (wbytes S) 0 ++ post) /\
+    (forall g, read_grp chk S B L buf p e = GOk g ->
+       read_grp chk S B L buf' p e = GOk (mkGrp p e (h_size L) (g_bl g) (ccast S count))).
+Proof.
+  intros HS HB (Hb0 & Hn0 & Hbin & Hnin & Hdisj) Hp Hlen H63 Hchk.
+  change (2 ^ 63) with 9223372036854775808 in H63.
+  pose proof (wsize_pos S) as HwS. pose proof (wsize_pos B) as HwB.
+  set (off := Z.to_nat (p + h_ng L)).
+  set (pre := firstn off buf). set (old := firstn (wbytes S) (skipn off buf)).
+  set (post := skipn (off + wbytes S) buf).
+  exists pre, old, post.
+  assert (Hoff : Z.of_nat off = p + h_ng L) by (unfold off; lia).
+  assert (Hlb : (off + wbytes S <= length buf)%nat) by (unfold blen, wsize in *; lia).
+  assert (Hsc : size_check chk p e (h_size L) = true).
+  { unfold size_check. destruct chk; [|reflexivity]. cbn [negb orb].
+    destruct (Hchk eq_refl) as [Hr Hle]. apply andb_true_iff; split; [apply Z.leb_le; lia|].
+    apply Z.leb_le. unfold SIZE_T.
+    rewrite !wrap_id' by (cbn; change (2 ^ 64) with 18446744073709551616 in *; lia). lia. }
+  assert (Hpa : padd p (h_ng L) = p + h_ng L) by (apply padd_id; cbn; lia).
+  assert (Hpb : padd p (h_bl L) = p + h_bl L) by (apply padd_id; cbn; lia).
+  assert (Hwr : forall v, wr S buf (p + h_ng L) v = Some (pre ++ enc_le (wbytes S) v ++ post)).
+  { intros v. unfold wr.
+    destruct (Z.ltb_spec (p + h_ng L) 0); [lia|].
+    destruct (Z.ltb_spec (blen buf) (p + h_ng L + wsize S)); [lia|]. reflexivity. }
+  assert (Hsplit : buf = pre ++ old ++ post).
+  { unfold pre, old, post. rewrite skipn_add.
+    rewrite (firstn_skipn (wbytes S) (skipn off buf)). symmetry. apply firstn_skipn. }
+  assert (Hpre : blen pre = p + h_ng L)
+    by (unfold pre, blen; rewrite firstn_length_le by lia; exact Hoff).
+  assert (Hold : length old = wbytes S).
+  { unfold old. rewrite firstn_length_le; [reflexivity|]. rewrite skipn_length. lia. }
+  split; [exact Hsplit|]. split; [exact Hpre|]. split; [exact Hold|].
+  split; [|split].
+  - unfold g_resize. rewrite Hsc, Hpa, Hwr. reflexivity.
+  - unfold g_clear, g_resize. rewrite Hsc, Hpa, Hwr.
+    assert (Hz : ccast S 0 = 0) by (destruct S; try discriminate HS; reflexivity).
+    rewrite Hz. reflexivity.
+  - intros g Hg. unfold read_grp in *. rewrite Hsc in *. rewrite Hpa, Hpb in *.
+    (* blockLength lies before or after the rewritten bytes *)
+    assert (HrdB : rd B (pre ++ enc_le (wbytes S) (ccast S count) ++ post) (p + h_bl L)
+                   = rd B buf (p + h_bl L)).
+    { rewrite Hsplit at 1. apply rd_frame; [rewrite enc_le_length; exact Hold|lia|].
+      assert (Hbo : blen old = wsize S) by (unfold blen, wsize; rewrite Hold; reflexivity).
+      rewrite Hbo, Hpre. destruct Hdisj; [left|right]; lia. }
+    rewrite HrdB.
+    destruct (rd B buf (p + h_bl L)) as [bl|]; cbn [of_opt gbind] in *; [|discriminate].
+    rewrite (rd_at S _ pre (ccast S count) post);
+      [|reflexivity|symmetry; exact Hpre|exact HS|apply wrap_range].
+    cbn [of_opt gbind].
+    destruct (rd S buf (p + h_ng L)); cbn [of_opt gbind] in Hg; [|discriminate].
+    injection Hg as <-. reflexivity.
+Qed.
+
+(* the legacy statement (two-member composite) is an instance *)
+Corollary resize_frame_std chk S B buf p e count :
   is_uns S = true -> is_uns B = true ->
   0 <= p -> p + hdr_size S B <= blen buf -> blen buf < 2 ^ 63 ->
   (chk = true -> 0 <= e - p < 2 ^ 64 /\ hdr_size S B <= e - p) ->
   exists pre old post,
     buf = pre ++ old ++ post /\ blen pre = p + wsize B /\ length old = wbytes S /\
     let buf' := pre ++ enc_le (wbytes S) (ccast S count) ++ post in
-    g_resize chk S B buf p e count = GOk buf' /\
-    g_clear chk S B buf p e = GOk (pre ++ enc_le (wbytes S) 0 ++ post) /\
-    (forall g, read_grp chk S B buf p e = GOk g ->
-       read_grp chk S B buf' p e = GOk (mkGrp p e (g_bl g) (ccast S count))).
+    g_resize chk S B (std_hlay S B) buf p e count = GOk buf' /\
+    g_clear chk S B (std_hlay S B) buf p e = GOk (pre ++ enc_le (wbytes S) 0 ++ post) /\
+    (forall g, read_grp chk S B (std_hlay S B) buf p e = GOk g ->
+       read_grp chk S B (std_hlay S B) buf' p e
+         = GOk (mkGrp p e (hdr_size S B) (g_bl g) (ccast S count))).
 Proof.
-  intros HS HB Hp Hlen H63 Hchk.
-  change (2 ^ 63) with 9223372036854775808 in H63.
-  pose proof (wsize_pos S) as HwS. pose proof (wsize_pos B) as HwB.
-  unfold hdr_size in Hlen.
-  set (off := Z.to_nat (p + wsize B)).
-  exists (firstn off buf), (firstn (wbytes S) (skipn off buf)), (skipn (off + wbytes S) buf).
-  assert (Hoff : Z.of_nat off = p + wsize B) by (unfold off; lia).
-  assert (Hlb : (off + wbytes S <= length buf)%nat) by (unfold blen, wsize in *; lia).
-  assert (Hsc : size_check chk p e (hdr_size S B) = true).
-  { unfold size_check. destruct chk; [|reflexivity]. cbn [negb orb].
-    destruct (Hchk eq_refl) as [Hr Hle]. apply andb_true_iff; split; [apply Z.leb_le; unfold hdr_size in *; lia|].
-    apply Z.leb_le. unfold SIZE_T, hdr_size in *.
-    rewrite !wrap_id' by (cbn; change (2 ^ 64) with 18446744073709551616 in *; lia). lia. }
-  assert (Hpa : padd p (wsize B) = p + wsize B) by (apply padd_id; cbn; lia).
-  assert (Hwr : forall v, wr S buf (p + wsize B) v
-                = Some (firstn off buf ++ enc_le (wbytes S) v ++ skipn (off + wbytes S) buf)).
-  { intros v. unfold wr.
-    destruct (Z.ltb_spec (p + wsize B) 0); [lia|].
-    destruct (Z.ltb_spec (blen buf) (p + wsize B + wsize S)); [lia|]. reflexivity. }
-  split; [|split; [|split; [|split; [|split]]]].
-  - rewrite skipn_add.
-    rewrite (firstn_skipn (wbytes S) (skipn off buf)). symmetry. apply firstn_skipn.
-  - unfold blen. rewrite firstn_length_le by lia. exact Hoff.
-  - rewrite firstn_length_le; [reflexivity|]. rewrite skipn_length. lia.
-  - unfold g_resize. rewrite Hsc, Hpa, Hwr. reflexivity.
-  - unfold g_clear, g_resize. rewrite Hsc, Hpa, Hwr.
-    assert (Hz : ccast S 0 = 0) by (destruct S; try discriminate HS; reflexivity).
-    rewrite Hz. reflexivity.
-  - intros g Hg. unfold read_grp in *. rewrite Hsc in *. rewrite Hpa in *.
-    assert (Hpre : blen (firstn off buf) = p + wsize B)
-      by (unfold blen; rewrite firstn_length_le by lia; exact Hoff).
-    (* blockLength: read from the untouched prefix *)
-    assert (HrdB : forall rest, rd B (firstn off buf ++ rest) p
-                   = Some (dec_le (firstn (wbytes B) (skipn (Z.to_nat p) (firstn off buf))))).
-    { intros rest. unfold rd. rewrite slice_prefix; [reflexivity|lia|].
-      rewrite Hpre. unfold wsize. lia. }
-    rewrite HrdB. cbn [of_opt gbind].
-    rewrite (rd_at S _ (firstn off buf) (ccast S count) (skipn (off + wbytes S) buf));
-      [|reflexivity|symmetry; exact Hpre|exact HS|apply wrap_range].
-    cbn [of_opt gbind].
-    rewrite <- (firstn_skipn off buf) in Hg at 1. rewrite HrdB in Hg. cbn [of_opt gbind] in Hg.
-    destruct (rd S buf (p + wsize B)); cbn [of_opt gbind] in Hg; [|discriminate].
-    injection Hg as <-. reflexivity.
+  intros HS HB. apply (resize_frame chk S B (std_hlay S B) buf p e count HS HB).
+  apply std_hlay_wf.
 Qed.
 
 (* ------------------------------------------------------------------ *)
@@ -788,7 +910,9 @@ Proof.
   assert (Hip : padd p bl = p + bl) by (apply padd_id; cbn; lia).
   assert (Hsz : entry_size chk buf p bl e = GOk (blen (enc_entry en))).
   { unfold entry_size. rewrite Hip.
-    unfold read_grp.
+    unfold read_grp. cbn [std_hlay h_size h_bl h_ng].
+    assert (Hip0 : padd (p + bl) 0 = p + bl) by (rewrite padd_id; cbn; lia).
+    rewrite Hip0.
     assert (Hsc : size_check chk (p + bl) e (hdr_size U16 U16) = true).
     { apply size_check_ok; [cbn; lia|]. intros Hc. destruct (Hchk Hc).
       change (hdr_size U16 U16) with 4. lia. }
@@ -805,10 +929,10 @@ Proof.
       [|rewrite Hbuf; unfold enc_entry; rewrite <- !app_assoc; reflexivity
        |rewrite !blen_app, blen_enc_le, Hb, <- Ep; lia|reflexivity|exact Hicnt].
     cbn [of_opt gbind].
-    unfold g_size_bytes, g_size_bytes_g, gassert, hdr_ok. cbn [g_ptr g_end g_ng g_bl].
+    unfold g_size_bytes, g_size_bytes_g, gassert, hdr_ok. cbn [g_ptr g_end g_hdr g_ng g_bl].
     rewrite Hsc, orb_true_r.
     rewrite size_bytes_fixed_ok; try reflexivity; try assumption;
-      [|change (hdr_size U16 U16) with 4; change (2 ^ 64) with 18446744073709551616; lia].
+      [|cbn; lia|change (hdr_size U16 U16) with 4; change (2 ^ 64) with 18446744073709551616; lia].
     cbn [of_opt gbind]. change (hdr_size U16 U16) with 4.
     rewrite padd_id64 by lia.
     unfold ccast, SIZE_T, PTRDIFF_T. rewrite wrap_i64_id by lia.
@@ -856,57 +980,98 @@ Proof.
       pose proof (blen_nonneg (concat (map enc_entry es))). split; lia.
 Qed.
 
-(* forward iteration over a nested group visits entry i where entry i-1 ends;
-   end() carries index numInGroup *)
-Theorem nested_forward_chain chk S B bl es pre post e :
-  let buf := pre ++ enc_nested S B bl es ++ post in
+(* forward iteration over a nested group visits entry i where entry i-1 ends,
+   the first one right after the dimension composite, whatever its layout [L]
+   and whatever else it holds: [hdr] is ANY sequence of [h_size L] bytes from
+   which blockLength and numInGroup are read back at their offsets; end()
+   carries index numInGroup.  (No separate bound on the header size is needed:
+   the header is part of a buffer shorter than 2^63.) *)
+Theorem nested_forward_chain chk S B L hdr bl es pre post e :
+  let buf := pre ++ enc_nested hdr es ++ post in
   let p := blen pre in
-  is_uns S = true -> is_uns B = true -> in_range B bl = true ->
-  in_range S (Z.of_nat (length es)) = true ->
+  is_uns S = true -> is_uns B = true ->
+  blen hdr = h_size L ->
+  rd B hdr (h_bl L) = Some bl -> rd S hdr (h_ng L) = Some (Z.of_nat (length es)) ->
+  in_range B bl = true -> in_range S (Z.of_nat (length es)) = true ->
   Forall (wf_nentry bl) es -> blen buf < 2 ^ 63 ->
-  (chk = true -> p + blen (enc_nested S B bl es) <= e /\ e < 2 ^ 63) ->
-  n_entries chk S B buf p e = GOk (starts_from (p + hdr_size S B) es) /\
-  n_end_idx chk S B buf p e = GOk (Z.of_nat (length es)).
+  (chk = true -> p + blen (enc_nested hdr es) <= e /\ e < 2 ^ 63) ->
+  n_entries chk S B L buf p e = GOk (starts_from (p + h_size L) es) /\
+  n_end_idx chk S B L buf p e = GOk (Z.of_nat (length es)).
 Proof.
-  intros buf p HS HB Hbl Hng Hwf H63 Hchk.
+  intros buf p HS HB Hhl HrB HrS Hbl Hng Hwf H63 Hchk.
   pose proof (uns_range_64 B bl HB Hbl) as Hbl'.
-  pose proof (hdr_size_bounds S B HS HB) as Hh.
+  destruct (rd_some_bounds B hdr _ _ HrB) as [Hb0 Hb1].
+  destruct (rd_some_bounds S hdr _ _ HrS) as [Hn0 Hn1].
+  pose proof (wsize_pos S) as HwS. pose proof (wsize_pos B) as HwB.
   pose proof (blen_nonneg pre) as Hp0. pose proof (blen_nonneg post) as Hpost0.
   pose proof (blen_nonneg (concat (map enc_entry es))) as Hc0.
   change (2 ^ 63) with 9223372036854775808 in *.
-  assert (Henc : blen (enc_nested S B bl es) = hdr_size S B + blen (concat (map enc_entry es))).
-  { unfold enc_nested, enc_dim, hdr_size, wsize. rewrite !blen_app, !blen_enc_le. lia. }
-  assert (Htot : blen buf = p + blen (enc_nested S B bl es) + blen post)
+  assert (Henc : blen (enc_nested hdr es) = h_size L + blen (concat (map enc_entry es))).
+  { unfold enc_nested. rewrite blen_app, Hhl. reflexivity. }
+  assert (Htot : blen buf = p + blen (enc_nested hdr es) + blen post)
     by (unfold buf, p; rewrite !blen_app; lia).
-  assert (Hrg : read_grp chk S B buf p e = GOk (mkGrp p e bl (Z.of_nat (length es)))).
+  assert (Hrg : read_grp chk S B L buf p e = GOk (mkGrp p e (h_size L) bl (Z.of_nat (length es)))).
   { unfold read_grp.
     rewrite size_check_ok; [|lia|intros Hc; destruct (Hchk Hc); fold p; lia].
-    rewrite (rd_at B buf pre bl (enc_le (wbytes S) (Z.of_nat (length es))
-                                   ++ concat (map enc_entry es) ++ post));
-      [|unfold buf, enc_nested, enc_dim; rewrite <- !app_assoc; reflexivity
-       |reflexivity|exact HB|exact Hbl].
-    cbn [of_opt gbind].
-    assert (Hpa : padd p (wsize B) = p + wsize B).
-    { apply padd_id. pose proof (wsize_pos B). unfold hdr_size in *. pose proof (wsize_pos S). cbn; lia. }
-    rewrite Hpa.
-    rewrite (rd_at S buf (pre ++ enc_le (wbytes B) bl) (Z.of_nat (length es))
-               (concat (map enc_entry es) ++ post));
-      [|unfold buf, enc_nested, enc_dim; rewrite <- !app_assoc; reflexivity
-       |rewrite blen_app, blen_enc_le; reflexivity|exact HS|exact Hng].
-    reflexivity. }
+    rewrite !padd_id by (cbn; lia).
+    unfold buf, enc_nested, p. rewrite <- !app_assoc.
+    rewrite (rd_embed B pre hdr _ _ _ HrB). cbn [of_opt gbind].
+    rewrite (rd_embed S pre hdr _ _ _ HrS). reflexivity. }
   unfold n_entries, n_begin, n_end_idx. rewrite Hrg. cbn [gbind g_ng g_bl].
   split; [|reflexivity].
-  unfold g_begin_ptr. cbn [g_ptr]. rewrite padd_id by (cbn; lia).
+  unfold g_begin_ptr. cbn [g_ptr g_hdr]. rewrite padd_id by (cbn; lia).
   rewrite Nat2Z.id.
-  assert (Hpre : p + hdr_size S B = blen (pre ++ enc_dim S B bl (Z.of_nat (length es)))).
-  { unfold enc_dim, hdr_size, wsize, p. rewrite !blen_app, !blen_enc_le. lia. }
+  assert (Hpre : p + h_size L = blen (pre ++ hdr)).
+  { unfold p. rewrite blen_app, Hhl. reflexivity. }
   rewrite Hpre.
-  pose proof (n_walk_chain chk S B bl e post es buf
-                (pre ++ enc_dim S B bl (Z.of_nat (length es))) 0 (length es)) as Hw.
+  pose proof (n_walk_chain chk S B bl e post es buf (pre ++ hdr) 0 (length es)) as Hw.
   rewrite Z.add_0_l in Hw.
   apply Hw; try assumption; try lia.
   - unfold buf, enc_nested. rewrite <- !app_assoc. reflexivity.
   - intros Hc. destruct (Hchk Hc) as [H1 H2]. rewrite <- Hpre. lia.
+Qed.
+
+(* the two-member composite holds its members where [std_hlay] says *)
+Lemma enc_dim_std S B bl ng :
+  is_uns S = true -> is_uns B = true -> in_range B bl = true -> in_range S ng = true ->
+  blen (enc_dim S B bl ng) = h_size (std_hlay S B) /\
+  rd B (enc_dim S B bl ng) (h_bl (std_hlay S B)) = Some bl /\
+  rd S (enc_dim S B bl ng) (h_ng (std_hlay S B)) = Some ng.
+Proof.
+  intros HS HB Hbl Hng. unfold enc_dim, std_hlay, hdr_size. cbn [h_size h_bl h_ng].
+  split; [|split].
+  - rewrite blen_app, !blen_enc_le. reflexivity.
+  - apply (rd_at B _ [] bl (enc_le (wbytes S) ng)); [reflexivity|reflexivity|exact HB|exact Hbl].
+  - apply (rd_at S _ (enc_le (wbytes B) bl) ng []);
+      [rewrite app_nil_r; reflexivity|rewrite blen_enc_le; reflexivity|exact HS|exact Hng].
+Qed.
+
+Lemma two_member_header_instance S B bl ng :
+  is_uns S = true -> is_uns B = true -> in_range B bl = true -> in_range S ng = true ->
+  (wf_hlay S B (std_hlay S B) /\ h_size (std_hlay S B) = hdr_size S B) /\
+  blen (enc_dim S B bl ng) = h_size (std_hlay S B) /\
+  rd B (enc_dim S B bl ng) (h_bl (std_hlay S B)) = Some bl /\
+  rd S (enc_dim S B bl ng) (h_ng (std_hlay S B)) = Some ng.
+Proof.
+  intros HS HB Hbl Hng.
+  split; [exact (std_hlay_wf S B)|exact (enc_dim_std S B bl ng HS HB Hbl Hng)].
+Qed.
+
+(* the legacy statement (two-member composite) is an instance *)
+Corollary nested_forward_chain_std chk S B bl es pre post e :
+  let hdr := enc_dim S B bl (Z.of_nat (length es)) in
+  let buf := pre ++ enc_nested hdr es ++ post in
+  let p := blen pre in
+  is_uns S = true -> is_uns B = true -> in_range B bl = true ->
+  in_range S (Z.of_nat (length es)) = true ->
+  Forall (wf_nentry bl) es -> blen buf < 2 ^ 63 ->
+  (chk = true -> p + blen (enc_nested hdr es) <= e /\ e < 2 ^ 63) ->
+  n_entries chk S B (std_hlay S B) buf p e = GOk (starts_from (p + hdr_size S B) es) /\
+  n_end_idx chk S B (std_hlay S B) buf p e = GOk (Z.of_nat (length es)).
+Proof.
+  intros hdr buf p HS HB Hbl Hng Hwf H63 Hchk.
+  destruct (enc_dim_std S B bl (Z.of_nat (length es)) HS HB Hbl Hng) as (H1 & H2 & H3).
+  apply (nested_forward_chain chk S B (std_hlay S B) hdr bl es pre post e); assumption.
 Qed.
 
 (* ------------------------------------------------------------------ *)
@@ -926,30 +1091,36 @@ Proof. vm_compute. repeat split; reflexivity. Qed.
 (* uint8 numInGroup: g[128] converts 128 to difference_type int8 = -128 and
    lands before the buffer; uint16: g[32768] likewise *)
 Example legacy_subscript_narrow_refuted :
-  Legacy.g_at false U8 U8 (mkGrp 0 0 1 200) 128 = GOk (-126) /\
-  g_at false U8 U8 (mkGrp 0 0 1 200) 128 = GOk 130 /\
-  Legacy.g_at false U16 U16 (mkGrp 0 0 1 40000) 32768 = GOk (-32764) /\
-  g_at false U16 U16 (mkGrp 0 0 1 40000) 32768 = GOk 32772.
+  Legacy.g_at false U8 U8 (mkGrp 0 0 2 1 200) 128 = GOk (-126) /\
+  g_at false U8 U8 (mkGrp 0 0 2 1 200) 128 = GOk 130 /\
+  Legacy.g_at false U16 U16 (mkGrp 0 0 4 1 40000) 32768 = GOk (-32764) /\
+  g_at false U16 U16 (mkGrp 0 0 4 1 40000) 32768 = GOk 32772 /\
+  (* the same with a 7-byte SBE 2.0 style header (uint16/uint16 + numGroups + numVarDataFields) *)
+  Legacy.g_at false U16 U16 (mkGrp 0 0 7 1 40000) 32768 = GOk (-32761) /\
+  g_at false U16 U16 (mkGrp 0 0 7 1 40000) 32768 = GOk 32775.
 Proof. vm_compute. repeat split; reflexivity. Qed.
 
 (* positive n as well: int16 x uint32 is evaluated in 32 unsigned bits *)
 Example legacy_subscript_wrap_refuted :
-  Legacy.g_at false U16 U32 (mkGrp 0 0 2147483648 3) 2 = GOk 6 /\
-  g_at false U16 U32 (mkGrp 0 0 2147483648 3) 2 = GOk 4294967302.
+  Legacy.g_at false U16 U32 (mkGrp 0 0 6 2147483648 3) 2 = GOk 6 /\
+  g_at false U16 U32 (mkGrp 0 0 6 2147483648 3) 2 = GOk 4294967302.
 Proof. vm_compute. repeat split; reflexivity. Qed.
 
 (* int32 x uint16 is evaluated in int: signed overflow *)
 Example legacy_subscript_overflow_refuted :
-  Legacy.g_at false U32 U16 (mkGrp 0 0 65535 40000) 39999 = GUB /\
-  g_at false U32 U16 (mkGrp 0 0 65535 40000) 39999 = GOk 2621334471.
+  Legacy.g_at false U32 U16 (mkGrp 0 0 6 65535 40000) 39999 = GUB /\
+  g_at false U32 U16 (mkGrp 0 0 6 65535 40000) 39999 = GOk 2621334471.
 Proof. vm_compute. repeat split; reflexivity. Qed.
 
 (* end(): numInGroup * blockLength in the promoted header types *)
 Example legacy_end_refuted :
-  Legacy.g_end_it false U32 U32 (mkGrp 0 0 65536 65536) = GOk (mkIter 8 65536 65536 0) /\
-  g_end_it false U32 U32 (mkGrp 0 0 65536 65536) = GOk (mkIter 4294967304 65536 65536 0) /\
-  Legacy.g_end_it false U16 U16 (mkGrp 0 0 65535 65535) = GUB /\
-  g_end_it false U16 U16 (mkGrp 0 0 65535 65535) = GOk (mkIter 4294836229 65535 65535 0).
+  Legacy.g_end_it false U32 U32 (mkGrp 0 0 8 65536 65536) = GOk (mkIter 8 65536 65536 0) /\
+  g_end_it false U32 U32 (mkGrp 0 0 8 65536 65536) = GOk (mkIter 4294967304 65536 65536 0) /\
+  Legacy.g_end_it false U16 U16 (mkGrp 0 0 4 65535 65535) = GUB /\
+  g_end_it false U16 U16 (mkGrp 0 0 4 65535 65535) = GOk (mkIter 4294836229 65535 65535 0) /\
+  (* 11-byte header (uint32/uint32 + numGroups + numVarDataFields) *)
+  Legacy.g_end_it false U32 U32 (mkGrp 0 0 11 65536 65536) = GOk (mkIter 11 65536 65536 0) /\
+  g_end_it false U32 U32 (mkGrp 0 0 11 65536 65536) = GOk (mkIter 4294967307 65536 65536 0).
 Proof. vm_compute. repeat split; reflexivity. Qed.
 
 (* ------------------------------------------------------------------ *)
@@ -982,15 +1153,27 @@ Example distance_is_index_diff_nonvacuous :
   it_diff U8 (it_at 2 1 0 0) (it_at 2 1 0 128) = GOk (-128).
 Proof. vm_compute. repeat split; reflexivity. Qed.
 
-Definition ex_grp : grp := mkGrp 100 1000 0 255.   (* uint8/uint8, blockLength 0 *)
-Definition ex_grp2 : grp := mkGrp 4 3000 10 200.   (* uint8/uint16 *)
+Definition ex_grp : grp := mkGrp 100 1000 2 0 255.   (* uint8/uint8, blockLength 0 *)
+Definition ex_grp2 : grp := mkGrp 4 3000 3 10 200.   (* uint8/uint16, two-member header *)
+(* uint8 numInGroup / uint16 blockLength + numGroups (uint16) + numVarDataFields (uint8): 6 bytes *)
+Definition ex_grp3 : grp := mkGrp 4 3000 6 10 200.
+(* blockLength (uint32) at offset 0, numInGroup (uint8) at offset 8: 9 bytes *)
+Definition ex_grp4 : grp := mkGrp 0 100 9 7 13.
 
 Example begin_plus_size_nonvacuous :
-  wf_grp U8 U16 (mkGrp 4 1000 10 99) /\ fits true U8 U16 (mkGrp 4 1000 10 99) /\
+  wf_grp U8 U16 (mkGrp 4 1000 3 10 99) /\ fits true U8 U16 (mkGrp 4 1000 3 10 99) /\
   99 * 10 < 2 ^ 63 /\ tmin I64 <= 4 + hdr_size U8 U16 + 99 * 10 <= tmax I64 /\
   in_range (dty U8) 99 = true /\
-  gbind (g_begin true U8 U16 (mkGrp 4 1000 10 99)) (fun b => it_plus U8 U16 b 99)
-    = g_end_it true U8 U16 (mkGrp 4 1000 10 99).
+  gbind (g_begin true U8 U16 (mkGrp 4 1000 3 10 99)) (fun b => it_plus U8 U16 b 99)
+    = g_end_it true U8 U16 (mkGrp 4 1000 3 10 99) /\
+  (* a 6-byte header: the view must cover 4 + 6 + 990 *)
+  wf_grp U8 U16 (mkGrp 4 1000 6 10 99) /\ fits true U8 U16 (mkGrp 4 1000 6 10 99) /\
+  tmin I64 <= 4 + 6 + 99 * 10 <= tmax I64 /\
+  gbind (g_begin true U8 U16 (mkGrp 4 1000 6 10 99)) (fun b => it_plus U8 U16 b 99)
+    = g_end_it true U8 U16 (mkGrp 4 1000 6 10 99) /\
+  g_end_it true U8 U16 (mkGrp 4 1000 6 10 99) = GOk (mkIter 1000 10 99 1000) /\
+  g_end_it true U8 U16 (mkGrp 4 999 6 10 99) = GOk (mkIter 1000 10 99 999) /\
+  g_begin true U8 U16 (mkGrp 4 9 6 10 99) = GAssert.
 Proof.
   vm_compute. repeat split; try reflexivity; try discriminate.
 Qed.
@@ -1003,7 +1186,15 @@ Example entry_i_address_nonvacuous :
   g_back true U8 U16 ex_grp2 = GOk (4 + 3 + 199 * 10) /\
   wf_grp U8 U8 ex_grp /\ fits true U8 U8 ex_grp /\
   g_at true U8 U8 ex_grp 254 = GOk 102 /\
-  g_at true U8 U8 ex_grp 255 = GAssert.
+  g_at true U8 U8 ex_grp 255 = GAssert /\
+  (* larger headers: the data start is g_ptr + g_hdr, not g_ptr + sizeof(bl) + sizeof(n) *)
+  wf_grp U8 U16 ex_grp3 /\ fits true U8 U16 ex_grp3 /\
+  g_at true U8 U16 ex_grp3 199 = GOk (4 + 6 + 199 * 10) /\
+  g_front true U8 U16 ex_grp3 = GOk 10 /\
+  g_back true U8 U16 ex_grp3 = GOk (4 + 6 + 199 * 10) /\
+  wf_grp U8 U32 ex_grp4 /\ fits true U8 U32 ex_grp4 /\
+  g_at true U8 U32 ex_grp4 12 = GOk (9 + 12 * 7) /\
+  g_size_bytes true U8 U32 ex_grp4 = GOk (9 + 13 * 7).
 Proof.
   vm_compute. repeat split; try reflexivity; try discriminate.
 Qed.
@@ -1012,23 +1203,63 @@ Definition ex_entries : list nentry :=
   [mkNEntry [7; 7; 7] 2 1 [1; 2]; mkNEntry [8; 8; 8] 1 3 [4; 5; 6]; mkNEntry [9; 9; 9] 5 0 []].
 
 Example nested_forward_chain_nonvacuous :
-  let buf := [0; 0] ++ enc_nested U8 U32 3 ex_entries ++ [255] in
+  let hdr := enc_dim U8 U32 3 3 in
+  let buf := [0; 0] ++ enc_nested hdr ex_entries ++ [255] in
   is_uns U8 = true /\ is_uns U32 = true /\ in_range U32 3 = true /\
   in_range U8 (Z.of_nat (length ex_entries)) = true /\
   Forall (wf_nentry 3) ex_entries /\ blen buf < 2 ^ 63 /\
-  (2 + blen (enc_nested U8 U32 3 ex_entries) <= blen buf - 1 /\ blen buf - 1 < 2 ^ 63) /\
-  n_entries true U8 U32 buf 2 (blen buf - 1) = GOk [7; 16; 26] /\
+  (2 + blen (enc_nested hdr ex_entries) <= blen buf - 1 /\ blen buf - 1 < 2 ^ 63) /\
+  n_entries true U8 U32 (std_hlay U8 U32) buf 2 (blen buf - 1) = GOk [7; 16; 26] /\
   starts_from (2 + hdr_size U8 U32) ex_entries = [7; 16; 26].
 Proof.
   cbn zeta. repeat split; try reflexivity; try (vm_compute; try reflexivity; discriminate).
   repeat constructor; vm_compute; reflexivity.
 Qed.
 
+(* an 11-byte dimension composite: numInGroup (uint8) at offset 0, three bytes
+   of padding, blockLength (uint32) at offset 4, then numGroups (uint16) and
+   numVarDataFields (uint8) with arbitrary contents *)
+Example nested_forward_chain_nonvacuous_layout :
+  let L := mkHlay 11 4 0 in
+  let hdr := [3; 170; 170; 170; 3; 0; 0; 0; 187; 187; 204] in
+  let buf := [0; 0] ++ enc_nested hdr ex_entries ++ [255] in
+  wf_hlay U8 U32 L /\ blen hdr = h_size L /\
+  rd U32 hdr (h_bl L) = Some 3 /\ rd U8 hdr (h_ng L) = Some (Z.of_nat (length ex_entries)) /\
+  blen buf < 2 ^ 63 /\
+  (2 + blen (enc_nested hdr ex_entries) <= blen buf - 1 /\ blen buf - 1 < 2 ^ 63) /\
+  n_entries true U8 U32 L buf 2 (blen buf - 1) = GOk [13; 22; 32] /\
+  starts_from (2 + h_size L) ex_entries = [13; 22; 32] /\
+  (* the two-member reading of the same bytes is something else *)
+  n_entries true U8 U32 (std_hlay U8 U32) buf 2 (blen buf - 1) <> GOk [13; 22; 32].
+Proof.
+  cbn zeta. unfold wf_hlay.
+  repeat split; try reflexivity; try (vm_compute; try reflexivity; discriminate).
+  right. vm_compute. discriminate.
+Qed.
+
 Example resize_frame_nonvacuous :
   is_uns U16 = true /\ is_uns U8 = true /\ 0 <= 1 /\
   1 + hdr_size U16 U8 <= blen [9; 5; 1; 2; 7] /\ blen [9; 5; 1; 2; 7] < 2 ^ 63 /\
   (0 <= 4 - 1 < 2 ^ 64 /\ hdr_size U16 U8 <= 4 - 1) /\
-  g_resize true U16 U8 [9; 5; 1; 2; 7] 1 4 65535 = GOk [9; 5; 255; 255; 7] /\
-  g_clear true U16 U8 [9; 5; 1; 2; 7] 1 4 = GOk [9; 5; 0; 0; 7] /\
-  g_resize true U16 U8 [9; 5; 1; 2; 7] 1 3 0 = GAssert.
+  g_resize true U16 U8 (std_hlay U16 U8) [9; 5; 1; 2; 7] 1 4 65535 = GOk [9; 5; 255; 255; 7] /\
+  g_clear true U16 U8 (std_hlay U16 U8) [9; 5; 1; 2; 7] 1 4 = GOk [9; 5; 0; 0; 7] /\
+  g_resize true U16 U8 (std_hlay U16 U8) [9; 5; 1; 2; 7] 1 3 0 = GAssert.
 Proof. vm_compute. repeat split; try reflexivity; discriminate. Qed.
+
+(* numInGroup (uint16) BEFORE blockLength (uint8), and blockLength at 0 /
+   numInGroup at 8 with padding in between: only the numInGroup bytes change *)
+Example resize_frame_nonvacuous_layout :
+  wf_hlay U16 U8 (mkHlay 3 2 0) /\
+  g_resize true U16 U8 (mkHlay 3 2 0) [9; 1; 2; 5; 7] 1 4 65535 = GOk [9; 255; 255; 5; 7] /\
+  g_clear true U16 U8 (mkHlay 3 2 0) [9; 1; 2; 5; 7] 1 4 = GOk [9; 0; 0; 5; 7] /\
+  g_resize true U16 U8 (mkHlay 3 2 0) [9; 1; 2; 5; 7] 1 3 0 = GAssert /\
+  wf_hlay U16 U8 (mkHlay 10 0 8) /\
+  g_resize true U16 U8 (mkHlay 10 0 8) [5; 1; 2; 3; 4; 5; 6; 7; 8; 9; 7] 0 10 258
+    = GOk [5; 1; 2; 3; 4; 5; 6; 7; 2; 1; 7] /\
+  read_grp true U16 U8 (mkHlay 10 0 8) [5; 1; 2; 3; 4; 5; 6; 7; 2; 1; 7] 0 10
+    = GOk (mkGrp 0 10 10 5 258).
+Proof.
+  unfold wf_hlay. repeat split; try (vm_compute; try reflexivity; discriminate).
+  - right. vm_compute. discriminate.
+  - left. vm_compute. discriminate.
+Qed.
